@@ -70,57 +70,69 @@ def _exec_chunk(arg):
 
 
 def check_universe(universe: str, rep: core.Report):
+    import hashlib
     uni, paths, res = generate(universe, rep)
     nops = len(uni['ops'])
     r = core.rng('c09' + universe)
     if core.tier() == 'quick':
-        nstates = min(len(paths), 500)
-        chosen = r.sample(paths, nstates)
+        chosen = r.sample(paths, min(len(paths), 500))
         nwalks = 320
     else:
-        chosen = paths
+        # every state x every call where the graph is small enough; a large seeded sample of the biggest one
+        cap = 14000
+        chosen = paths if len(paths) <= 30000 else r.sample(paths, cap)
         nwalks = 16000
-        rep.exhaustive = True
-    items = [(p, [k]) for p in chosen for k in range(1, nops + 1)]
-    # random walks chosen by TLC (in-domain calls only): path-dependent hidden state
-    for w in walks(universe, nwalks, rep):
-        items.append(([], w))
-    chunks = [(uni, c) for c in core.chunked(items, core.NCPU * 4)]
-    triples: Dict[Any, Any] = {}
-    nhist = 0
-    for tr, n in core.pmap(_exec_chunk, chunks):
-        nhist += n
-        for k, v in tr.items():
-            triples.setdefault(k, v)
+    complete = len(chosen) == len(paths)
+    seen = set()
+    nhist = ntriples = skipped = 0
+    sample = None
+    batches = core.chunked(chosen, max(1, len(chosen) // 1500)) if len(chosen) > 1500 else [chosen]
+    walks_left = walks(universe, nwalks, rep)
+    for bi, batch in enumerate(batches):
+        items = [(p, [k]) for p in batch for k in range(1, nops + 1)]
+        if bi == 0:
+            # random walks chosen by TLC (in-domain calls only): path-dependent hidden state
+            items += [([], w) for w in walks_left]
+        chunks = [(uni, c) for c in core.chunked(items, core.NCPU * 2)]
+        triples: Dict[Any, Any] = {}
+        for tr, n in core.pmap(_exec_chunk, chunks):
+            nhist += n
+            for k, v in tr.items():
+                h = hashlib.sha1(repr(k).encode()).digest()
+                if h not in seen:
+                    seen.add(h)
+                    triples[k] = v
+        keys = list(triples)
+        recs = [{'tid': i + 1, 'pre': json.loads(pre), 'call': json.loads(call), 'post': json.loads(post)}
+                for i, (pre, call, post) in enumerate(keys)]
+        verdicts, st = core.validate('TraceC09_' + universe, 'TraceC09_' + universe + '.cfg', recs)
+        rep.add_val_stats('TraceC09_%s batch %d' % (universe, bi + 1), st)
+        ntriples += len(keys)
+        for i, k in enumerate(keys):
+            v = verdicts[i + 1]
+            if v == '':
+                rep.traces_ok += 1
+                call = json.loads(k[1])
+                if json.loads(k[2])['out'] != 'ok' or call['op'] != 'rename':
+                    rep.mark_nontrivial([universe, k])
+            elif v == 'out-of-domain':
+                skipped += 1
+            else:
+                path, extra = triples[k]
+                rep.violation({'universe': universe, 'calls_before': [uni['ops'][j - 1] for j in path],
+                               'then': [uni['ops'][j - 1] for j in extra]},
+                              {'failing_clause': v, 'pre': json.loads(k[0]), 'call': json.loads(k[1]),
+                               'post_observed': json.loads(k[2])})
+        if keys and sample is None:
+            k = keys[len(keys) // 2]
+            sample = {'universe': universe, 'call': json.loads(k[1]), 'post': json.loads(k[2])}
     rep.evaluations += nhist
-    recs = []
-    keys = list(triples)
-    for i, (pre, call, post) in enumerate(keys):
-        recs.append({'tid': i + 1, 'pre': json.loads(pre), 'call': json.loads(call), 'post': json.loads(post)})
-    verdicts, st = core.validate('TraceC09_' + universe, 'TraceC09_' + universe + '.cfg', recs)
-    rep.add_val_stats('TraceC09_' + universe, st)
-    skipped = 0
-    for i, k in enumerate(keys):
-        v = verdicts[i + 1]
-        if v == '':
-            rep.traces_ok += 1
-            call = json.loads(k[1])
-            if json.loads(k[2])['out'] != 'ok' or call['op'] != 'rename':
-                rep.mark_nontrivial([universe, k])
-        elif v == 'out-of-domain':
-            skipped += 1
-        else:
-            path, extra = triples[k]
-            rep.violation({'universe': universe, 'calls_before': [uni['ops'][j - 1] for j in path],
-                           'then': [uni['ops'][j - 1] for j in extra]},
-                          {'failing_clause': v, 'pre': json.loads(k[0]), 'call': json.loads(k[1]),
-                           'post_observed': json.loads(k[2])})
     rep.notes.setdefault('per_universe', {})[universe] = {
         'reachable_states': res.distinct, 'graph_transitions': res.generated, 'calls': nops,
-        'histories_executed': nhist, 'distinct_triples': len(keys), 'out_of_domain_skipped': skipped}
-    if keys:
-        k = keys[len(keys) // 2]
-        rep.samples.append({'universe': universe, 'call': json.loads(k[1]), 'post': json.loads(k[2])})
+        'states_replayed_with_every_call': len(chosen), 'every_state_replayed': complete,
+        'histories_executed': nhist, 'distinct_triples': ntriples, 'out_of_domain_skipped': skipped}
+    if sample:
+        rep.samples.append(sample)
 
 
 def replay(path: str, rep: core.Report) -> int:
